@@ -29,6 +29,8 @@ func checkC06(c *Ctx) {
 	// a refused command leaves the saved state alone: what is written is what was listed under the same locks, every time
 	// (shared with C12)
 	r122(c, "R06.7 snapshots-serialised-and-unconditional")
+	// a deploy that fails puts back exactly what it took out of the slot: the order of the deploy steps (shared with C01)
+	r011(c, "R06.8 failed-deploy-restores-the-slot")
 }
 
 func r061(c *Ctx, rule string) {
